@@ -22,7 +22,7 @@ type c08Desc struct {
 	Prefix  string `json:"prefix"`
 	Trigger string `json:"trigger"` // auto | explicit
 	Suffix  string `json:"suffix"`
-	Late    string `json:"late,omitempty"` // late-notification order: "", beforeCtxClear, beforeServerClear, afterRelease, afterDispatch
+	Late    string `json:"late,omitempty"`    // late-notification order: "", beforeCtxClear, beforeServerClear, afterRelease, afterDispatch
 	LateAt  string `json:"late_at,omitempty"` // where the watcher is paused: "" = after it handled the exit; "cancel" = at its entry into CancelFlows (bounded pause)
 	NExt    int    `json:"extensions"`
 }
